@@ -808,8 +808,22 @@ fn c04_limits(input: &Input, obs: &mut Obs) -> Result<(), Fail> {
     }
     stream.extend_from_slice(style_name(&mut s, "Content-Length").as_bytes());
     stream.push(b':');
-    stream.extend_from_slice(style_value(&mut s, &n.to_string()).as_bytes());
+    // now and then the declaration does not even fit 32 bits: whatever L is, it exceeds it
+    let beyond: Option<&str> = if s.chance(12) {
+        Some(["4294967296", "4294967297", "8589934591", "18446744073709551615", "18446744073709551616", "99999999999999999999", "004294967296"][s.below(7)])
+    } else {
+        None
+    };
+    let n_text = match beyond {
+        Some(t) => t.to_string(),
+        None => n.to_string(),
+    };
+    let n = if beyond.is_some() { 0 } else { n };
+    stream.extend_from_slice(style_value(&mut s, &n_text).as_bytes());
     stream.extend_from_slice(b"\r\n\r\n");
+    if beyond.is_some() {
+        stream.extend_from_slice(b"abc");
+    }
     // body: none / partial / full (+ a following request)
     let supply = match s.weighted(&[4, 2, 6]) {
         0 => 0,
@@ -839,8 +853,14 @@ fn c04_limits(input: &Input, obs: &mut Obs) -> Result<(), Fail> {
     };
     let r = {
         let mut sch = sched_from_src(&mut s, &stream, &bounds, 20);
-        run_focus_after("C04", &F_C04, &stream, &reqs, &end, limit, false, &mut sch, prelude)?
+        // a declaration beyond 32 bits exceeds every limit: that it is rejected (as an invalid
+        // value) at the end of its line, and not accepted or reported differently, is on topic
+        let focus = if beyond.is_some() { Focus { errors: true, ..F_C04 } } else { F_C04 };
+        run_focus_after("C04", &focus, &stream, &reqs, &end, limit, false, &mut sch, prelude)?
     };
+    if beyond.is_some() {
+        obs.label("declared_length_beyond_32_bits");
+    }
     if r.offtopic {
         obs.label("offtopic_mismatch");
         return Ok(());
